@@ -472,6 +472,10 @@ pub fn jobs(pn: u32, tier: Tier) -> Vec<Job> {
         }
         15 => {
             v.push(job("seg-32-all-pairs", JobKind::Fixed { cases: seg_pair_cases(id, false), stop_on_first: false }, Rule::default(), &["ins_ge_5_copies"]));
+            // the masks must be a pure function of the two ranges: every ordered pair of consecutive
+            // inserts on one tree (tiling / copy-count oracle on both), then longer insert sequences
+            v.push(job("seg-32-all-consecutive-insert-pairs", JobKind::Fixed { cases: seg_insert_pair_cases(id), stop_on_first: false }, Rule::default(), &["ins_ge_5_copies"]));
+            v.push(job("seg-32-insert-sequences", random(seg_cases(id, SegMix { w: [40, 30, 0, 2, 2, 10, 10], len: 0..=40, thorough: false, only_small: true }), n(4_000, 100_000)), Rule::any("a history with >=2 inserts before a query", &["query_ge2_answers_multi_place", "ins_ge_5_copies"]), &[]));
         }
         16 => {
             let rule = Rule::all("a fully consumed query issued while >=1 expired copy was physically stored", &["c16_nontrivial"]);
@@ -560,6 +564,24 @@ fn seg_pair_cases(prop: &str, three_times: bool) -> Vec<Case> {
             for (x, y) in &rs {
                 c.ops.push(RawOp::new(S_QUERY, &[*x, 0, *y, 0, 0]));
             }
+        }
+        cases.push(c);
+    }
+    cases
+}
+
+/// For every first range: (insert first, insert second, clear) for all 528 second ranges.
+fn seg_insert_pair_cases(prop: &str) -> Vec<Case> {
+    let rs = ranges_32();
+    let mut cases = Vec::new();
+    for (a, b) in &rs {
+        let mut c = Case::new(prop, "seg");
+        c.set("lo", 0).set("len", 32).set("rtype", "i32");
+        for (x, y) in &rs {
+            c.ops.push(RawOp::new(S_INS, &[*a, 0, *b, 0, 4]));
+            c.ops.push(RawOp::new(S_INS, &[*x, 0, *y, 0, 4]));
+            c.ops.push(RawOp::new(S_QUERY, &[*x, 0, *x, 0, 0]));
+            c.ops.push(RawOp::new(S_CLEAR, &[0]));
         }
         cases.push(c);
     }
